@@ -1787,7 +1787,11 @@ class RTCSctpTransport(AsyncIOEventEmitter):
             msg_type = data[0]
             if msg_type == DATA_CHANNEL_OPEN and len(data) >= 12:
                 # we should not receive an open for an existing channel
-                assert stream_id not in self._data_channels
+                if stream_id in self._data_channels:
+                    self.__log_debug(
+                        "x Ignoring DATA_CHANNEL_OPEN for existing stream %d", stream_id
+                    )
+                    return
 
                 (
                     msg_type,
@@ -1798,9 +1802,13 @@ class RTCSctpTransport(AsyncIOEventEmitter):
                     protocol_length,
                 ) = unpack_from("!BBHLHH", data)
                 pos = 12
-                label = data[pos : pos + label_length].decode("utf8")
-                pos += label_length
-                protocol = data[pos : pos + protocol_length].decode("utf8")
+                try:
+                    label = data[pos : pos + label_length].decode("utf8")
+                    pos += label_length
+                    protocol = data[pos : pos + protocol_length].decode("utf8")
+                except UnicodeDecodeError:
+                    self.__log_debug("x Ignoring DATA_CHANNEL_OPEN with invalid UTF-8")
+                    return
 
                 # check channel type
                 maxPacketLifeTime = None
@@ -1832,12 +1840,22 @@ class RTCSctpTransport(AsyncIOEventEmitter):
                 # emit channel
                 self.emit("datachannel", channel)
             elif msg_type == DATA_CHANNEL_ACK:
-                assert stream_id in self._data_channels
-                channel = self._data_channels[stream_id]
+                channel = self._data_channels.get(stream_id)
+                if channel is None:
+                    self.__log_debug(
+                        "x Ignoring DATA_CHANNEL_ACK for unknown stream %d", stream_id
+                    )
+                    return
                 channel._setReadyState("open")
         elif pp_id == WEBRTC_STRING and stream_id in self._data_channels:
+            try:
+                text = data.decode("utf8")
+            except UnicodeDecodeError:
+                self.__log_debug("x Ignoring string message with invalid UTF-8")
+                return
+
             # emit message
-            self._data_channels[stream_id].emit("message", data.decode("utf8"))
+            self._data_channels[stream_id].emit("message", text)
         elif pp_id == WEBRTC_STRING_EMPTY and stream_id in self._data_channels:
             # emit message
             self._data_channels[stream_id].emit("message", "")
